@@ -7191,6 +7191,512 @@ def _r18_code_step(body, state: Dict[str, bool], charvar: str, ch: str):
     return st, out['cut'], out['arms']
 
 
+# ---- R18 (b'), wave 11 (seeded change s11-c11-2): the splitter hops from delimiter to delimiter with str.find()
+#
+# The loop is read as a two-state machine (inside / outside the quoted string, the boolean variable in front of the loop)
+# whose every pass is enumerated per path: tests on the state variable are decided, every other test splits the path and
+# is kept as a path condition.  Decided:
+#   * no piece is handed out (append / yield) on a path on which the state is "inside";
+#   * every path that CLOSES the quoted string (inside -> outside) at a DQUOTE found by find('"') carries a condition that
+#     is a function of the PARITY of the run of backslashes in front of that DQUOTE (RFC 9110 5.6.4: a quoted-pair is a
+#     backslash and ONE character, so the DQUOTE closes exactly when an even number of backslashes precedes it):
+#       - a run count (len(s) - len(s.rstrip('\\')) of text ending at the DQUOTE, or a counter stepped backwards over
+#         header[k] == '\\') is evaluated for run lengths 0..5: the path must be taken exactly for the even ones;
+#       - a condition that reads only a FIXED window in front of the DQUOTE (header[q - 1], header[q - 2:q],
+#         header[:q].endswith('\\')) cannot tell a run of k backslashes from a run of k + 1: violation;
+#       - no backslash evidence at all: `\"` closes the string: violation.
+# Not decided: the position arithmetic (which DQUOTE / comma comes first, start / pos, the slices handed out).
+
+_R18_WITNESS_HOP = "quality('text/html', 'text/plain;format=\"C:\\\\dir\\\\\", text/html;q=0.5') is 0.0: the value ends in an escaped " \
+                   "backslash, its closing DQUOTE is taken for an escaped one and every following range is swallowed"
+_R18_RUNS = (0, 1, 2, 3, 4, 5)
+
+
+def _r18_is_bs(e) -> bool:
+    return isinstance(e, ast.Constant) and e.value == '\\'
+
+
+def _r18_find_hops(run, g, gh: str, loop: ast.While):
+    """the str.find() hop loop of the splitter; emits the obligations, returns (their number, the summary for the evidence file)"""
+    def unreadable(what):
+        return UnknownIdiom('%s: %s in the find() hop loop' % (g.qual, what if isinstance(what, str) else short(what, 60)))
+
+    if loop.orelse:
+        raise unreadable(loop)
+    inside_loop = {id(x) for x in ast.walk(loop)}
+    # ---- names: aliases of header.find, positions of a found DQUOTE, single definitions
+    defs: Dict[str, List[ast.AST]] = {}
+    aug: Dict[str, List[ast.AugAssign]] = {}
+    for n in walk_self(g.node):
+        if isinstance(n, ast.Assign):
+            for t in n.targets:
+                if isinstance(t, ast.Name):
+                    defs.setdefault(t.id, []).append(n.value)
+                elif isinstance(t, (ast.Tuple, ast.List)):
+                    for x in ast.walk(t):
+                        if isinstance(x, ast.Name):
+                            defs.setdefault(x.id, []).append(n)          # not a readable single definition
+        elif isinstance(n, ast.AnnAssign) and isinstance(n.target, ast.Name) and n.value is not None:
+            defs.setdefault(n.target.id, []).append(n.value)
+        elif isinstance(n, ast.AugAssign) and isinstance(n.target, ast.Name):
+            aug.setdefault(n.target.id, []).append(n)
+        elif isinstance(n, (ast.For, ast.comprehension)):
+            for x in ast.walk(n.target):
+                if isinstance(x, ast.Name):
+                    defs.setdefault(x.id, []).append(n)
+        elif isinstance(n, ast.NamedExpr):
+            defs.setdefault(n.target.id, []).append(n)
+    if gh in defs or gh in aug:
+        raise unreadable('the header text %s is rebound' % gh)
+
+    def is_hdr_method(fn, names):
+        if isinstance(fn, ast.Attribute) and isinstance(fn.value, ast.Name) and fn.value.id == gh and fn.attr in names:
+            return True
+        if isinstance(fn, ast.Name) and len(defs.get(fn.id, ())) == 1 and fn.id not in aug:
+            d = defs[fn.id][0]
+            return isinstance(d, ast.Attribute) and isinstance(d.value, ast.Name) and d.value.id == gh and d.attr in names
+        return False
+
+    def is_quote_find(e):
+        return isinstance(e, ast.Call) and is_hdr_method(e.func, ('find', 'index')) and e.args and isinstance(e.args[0], ast.Constant) \
+            and e.args[0].value == '"' and not e.keywords
+
+    qpos = {nm for nm, ds in defs.items() if ds and all(is_quote_find(d) for d in ds) and nm not in aug}
+    if not qpos:
+        raise unreadable("no position of a DQUOTE found by %s.find('\"', ...)" % gh)
+    # positions: integers, results of header.find / .index / len(header), sums and differences of positions
+    posnames: Set[str] = set(defs) - {gh}
+
+    def is_pos(e):
+        if isinstance(e, ast.Constant):
+            return type(e.value) is int
+        if isinstance(e, ast.Name):
+            return e.id in posnames
+        if isinstance(e, ast.BinOp) and isinstance(e.op, (ast.Add, ast.Sub)):
+            return is_pos(e.left) and is_pos(e.right)
+        if isinstance(e, ast.Call) and not e.keywords and is_hdr_method(e.func, ('find', 'index', 'rfind', 'rindex')):
+            return bool(e.args) and isinstance(e.args[0], ast.Constant) and all(is_pos(x) for x in e.args[1:])
+        if isinstance(e, ast.Call) and isinstance(e.func, ast.Name) and e.func.id == 'len' and len(e.args) == 1 and not e.keywords:
+            return isinstance(e.args[0], ast.Name) and e.args[0].id == gh
+        return False
+
+    shrunk = True
+    while shrunk:                              # greatest fixpoint: pos = comma + 1 / comma = find(',', pos) refer to each other
+        shrunk = False
+        for nm in sorted(posnames):
+            if not (all(isinstance(d, ast.expr) and is_pos(d) for d in defs[nm]) and all(is_pos(x.value) for x in aug.get(nm, ()))):
+                posnames.discard(nm)
+                shrunk = True
+    if not qpos <= posnames:
+        raise unreadable('the position of the found DQUOTE is rebound to something that is not a position')
+    # ---- the state variable
+    init: Dict[str, bool] = {}
+    for n in walk_self(g.node):
+        if isinstance(n, (ast.Assign, ast.AnnAssign)) and id(n) not in inside_loop and isinstance(getattr(n, 'value', None), ast.Constant) \
+                and isinstance(n.value.value, bool):
+            for t in (n.targets if isinstance(n, ast.Assign) else [n.target]):
+                if isinstance(t, ast.Name):
+                    if t.id in init:
+                        raise unreadable('%s initialised twice' % t.id)
+                    init[t.id] = n.value.value
+    if len(init) != 1:
+        raise unreadable('%d boolean state variables in front of the loop (one expected: inside / outside the quoted string)' % len(init))
+    sv = next(iter(init))
+    outside = init[sv]
+    if not (isinstance(loop.test, ast.Constant) and loop.test.value is True):
+        # a bounded loop (`while pos < len(header)`): the bound is position arithmetic; it must not involve the state
+        if any(isinstance(x, ast.Name) and x.id == sv for x in ast.walk(loop.test)):
+            raise unreadable(loop.test)
+
+    # ---- one pass of the body, per path
+    def ev3(e, val):
+        """three-valued: True / False / None (not a function of the state variable)"""
+        if isinstance(e, ast.Constant) and isinstance(e.value, bool):
+            return e.value
+        if isinstance(e, ast.Name) and e.id == sv:
+            return val
+        if isinstance(e, ast.UnaryOp) and isinstance(e.op, ast.Not):
+            v = ev3(e.operand, val)
+            return None if v is None else (not v)
+        if isinstance(e, ast.BoolOp):
+            vs = [ev3(x, val) for x in e.values]
+            if isinstance(e.op, ast.And):
+                return False if any(v is False for v in vs) else (True if all(v is True for v in vs) else None)
+            return True if any(v is True for v in vs) else (False if all(v is False for v in vs) else None)
+        if isinstance(e, ast.Compare) and len(e.ops) == 1 and isinstance(e.ops[0], (ast.Is, ast.IsNot, ast.Eq, ast.NotEq)) \
+                and isinstance(e.comparators[0], ast.Constant) and isinstance(e.comparators[0].value, bool):
+            v = ev3(e.left, val)
+            if v is None:
+                if any(isinstance(x, ast.Name) and x.id == sv for x in ast.walk(e)):
+                    raise unreadable(e)
+                return None
+            r = v is e.comparators[0].value
+            return r if isinstance(e.ops[0], (ast.Is, ast.Eq)) else (not r)
+        if any(isinstance(x, ast.Name) and x.id == sv for x in ast.walk(e)):
+            raise unreadable(e)
+        return None
+
+    events: List[Tuple] = []
+
+    def walk(stmts, states):
+        for s in stmts:
+            nxt = []
+            for val, cond in states:
+                nxt.extend(step(s, val, cond))
+            states = nxt
+            if not states:
+                break
+        return states
+
+    def step(s, val, cond):
+        if isinstance(s, ast.If):
+            t = ev3(s.test, val)
+            out = []
+            if t is not False:
+                out.extend(walk(s.body, [(val, cond + [(s.test, True)])]))
+            if t is not True:
+                out.extend(walk(s.orelse, [(val, cond + [(s.test, False)])]))
+            return out
+        if isinstance(s, (ast.Assign, ast.AnnAssign)):
+            if getattr(s, 'value', None) is None:
+                return [(val, cond)]
+            tgs = s.targets if isinstance(s, ast.Assign) else [s.target]
+            if any(isinstance(t, ast.Name) and t.id == sv for t in tgs):
+                if not all(isinstance(t, ast.Name) for t in tgs) or len(tgs) != 1:
+                    raise unreadable(s)
+                v = ev3(s.value, val)
+                if v is None:
+                    # the new state is a test of its own: one path for each outcome
+                    out = []
+                    for b in (True, False):
+                        c2 = cond + [(s.value, b)]
+                        if b != val:
+                            events.append(('set', s, val, b, c2))
+                            c2 = c2 + [(s, 'close' if b == outside else 'open')]
+                        out.append((b, c2))
+                    return out
+                if v != val:
+                    events.append(('set', s, val, v, cond))
+                    cond = cond + [(s, 'close' if v == outside else 'open')]
+                return [(v, cond)]
+            if any(isinstance(x, ast.Name) and x.id == sv for t in tgs for x in ast.walk(t)):
+                raise unreadable(s)
+            return [(val, cond)]                       # positions, pieces: slice arithmetic, not decided
+        if isinstance(s, ast.AugAssign):
+            if any(isinstance(x, ast.Name) and x.id == sv for x in ast.walk(s.target)):
+                raise unreadable(s)
+            return [(val, cond)]
+        if isinstance(s, ast.Expr) and isinstance(s.value, ast.Call) and isinstance(s.value.func, ast.Attribute) and s.value.func.attr == 'append':
+            events.append(('cut', s, val, val, cond))
+            return [(val, cond)]
+        if isinstance(s, ast.Expr) and isinstance(s.value, ast.Yield):
+            events.append(('cut', s, val, val, cond))
+            return [(val, cond)]
+        if isinstance(s, ast.Expr) and isinstance(s.value, ast.Constant):
+            return [(val, cond)]
+        if isinstance(s, ast.Pass):
+            return [(val, cond)]
+        if isinstance(s, ast.Continue):
+            ends.add(val)
+            finished.append((start_state[0], cond))
+            return []
+        if isinstance(s, (ast.Break, ast.Return)):
+            finished.append((start_state[0], cond))
+            return []
+        if isinstance(s, ast.While) and not s.orelse:
+            # an inner loop is read only as the backwards counter of the backslash run: it must not touch the state, the found
+            # positions, or hand out pieces
+            for x in ast.walk(s):
+                if isinstance(x, ast.Name) and isinstance(x.ctx, ast.Store) and (x.id == sv or x.id in qpos):
+                    raise unreadable(s)
+                if isinstance(x, (ast.Yield, ast.Break, ast.Continue, ast.Return)) or (
+                        isinstance(x, ast.Call) and isinstance(x.func, ast.Attribute) and x.func.attr == 'append'):
+                    raise unreadable(s)
+            return [(val, cond)]
+        raise unreadable(s)
+
+    seen_states: Set[bool] = set()
+    finished: List[Tuple[bool, List]] = []
+    start_state = [outside]
+    todo = [outside]
+    while todo:
+        v0 = todo.pop()
+        if v0 in seen_states:
+            continue
+        seen_states.add(v0)
+        ends: Set[bool] = set()
+        start_state[0] = v0
+        for val, c in walk(loop.body, [(v0, [])]):
+            ends.add(val)
+            finished.append((v0, c))
+        todo.extend(ends - seen_states)
+
+    # ---- clause 1: no piece is handed out inside the quoted string
+    cuts = [e for e in events if e[0] == 'cut']
+    if not cuts:
+        raise unreadable('no piece is handed out (append / yield)')
+    n_ob = 0
+    done = set()
+    for _k, s, val, _v, cond in cuts:
+        if (id(s), val) in done:
+            continue
+        done.add((id(s), val))
+        n_ob += 1
+        run.check(val == outside, '%s: a piece is handed out only on a path on which the state is "outside the quoted string" (%s is %s)'
+                  % (g.name, sv, outside), g, s, where=g.loc(s), witness=['reached with %s = %s' % (sv, val)], runtime_witness=_R18_WITNESS_A)
+
+    # ---- clause 2: closing depends on the parity of the backslash run
+    if not any(e[0] == 'set' and e[2] != outside and e[3] == outside for e in events):
+        raise unreadable('no path that closes the quoted string (%s back to %s)' % (sv, outside))
+
+    def expand(e, depth=0):
+        """names bound once to an expression are read as that expression"""
+        class T(ast.NodeTransformer):
+            def visit_Name(self, n):
+                if isinstance(n.ctx, ast.Load) and n.id not in posnames and n.id != gh and n.id != sv and n.id not in aug \
+                        and len(defs.get(n.id, ())) == 1 and isinstance(defs[n.id][0], ast.expr) and depth < 5:
+                    return expand(defs[n.id][0], depth + 1)
+                return n
+        import copy
+        return T().visit(copy.deepcopy(e))
+
+    def atoms(e, pol):
+        if isinstance(e, ast.UnaryOp) and isinstance(e.op, ast.Not):
+            return atoms(e.operand, not pol)
+        if isinstance(e, ast.BoolOp) and ((isinstance(e.op, ast.And) and pol) or (isinstance(e.op, ast.Or) and not pol)):
+            return [a for x in e.values for a in atoms(x, pol)]
+        return [(e, pol)]
+
+    def ends_at_quote(sl):
+        """a slice of the header text whose upper bound is the position of the found DQUOTE"""
+        return isinstance(sl, ast.Subscript) and isinstance(sl.value, ast.Name) and sl.value.id == gh and isinstance(sl.slice, ast.Slice) \
+            and sl.slice.step is None and isinstance(sl.slice.upper, ast.Name) and sl.slice.upper.id in qpos
+
+    def backwards_counter(nm):
+        """n = 0; k = q - 1; while ... header[k] == '\\\\' ...: n += 1; k -= 1"""
+        if not (len(defs.get(nm, ())) == 1 and isinstance(defs[nm][0], ast.Constant) and defs[nm][0].value == 0 and type(defs[nm][0].value) is int
+                and id(defs[nm][0]) in inside_loop):
+            return False              # the counter starts at 0 for every DQUOTE found
+        steps = aug.get(nm, [])
+        if not (len(steps) == 1 and isinstance(steps[0].op, ast.Add) and isinstance(steps[0].value, ast.Constant) and steps[0].value.value == 1):
+            return False
+        for w in ast.walk(loop):
+            if not (isinstance(w, ast.While) and w is not loop and any(x is steps[0] for x in w.body)):
+                continue
+            ks = []
+            for (a, pol) in atoms(w.test, True):
+                if isinstance(a, ast.Compare) and len(a.ops) == 1 and isinstance(a.ops[0], ast.Eq) and pol and _r18_is_bs(a.comparators[0]) \
+                        and isinstance(a.left, ast.Subscript) and isinstance(a.left.value, ast.Name) and a.left.value.id == gh \
+                        and isinstance(a.left.slice, ast.Name):
+                    ks.append(a.left.slice.id)
+            if len(ks) != 1:
+                return False
+            k = ks[0]
+            kd = defs.get(k, [])
+            ka = aug.get(k, [])
+            if not (len(kd) == 1 and isinstance(kd[0], ast.BinOp) and isinstance(kd[0].op, ast.Sub) and isinstance(kd[0].left, ast.Name)
+                    and kd[0].left.id in qpos and isinstance(kd[0].right, ast.Constant) and kd[0].right.value == 1):
+                return False
+            if not (len(ka) == 1 and any(x is ka[0] for x in w.body) and isinstance(ka[0].op, ast.Sub) and isinstance(ka[0].value, ast.Constant)
+                    and ka[0].value.value == 1):
+                return False
+            if len(w.body) != 2:
+                return False
+            return True
+        return False
+
+    def is_run_count(e):
+        if isinstance(e, ast.Name):
+            return backwards_counter(e.id)
+        if isinstance(e, ast.BinOp) and isinstance(e.op, ast.Sub):
+            l, r = e.left, e.right
+            if all(isinstance(x, ast.Call) and isinstance(x.func, ast.Name) and x.func.id == 'len' and len(x.args) == 1 and not x.keywords for x in (l, r)):
+                a, b = l.args[0], r.args[0]
+                if isinstance(b, ast.Call) and isinstance(b.func, ast.Attribute) and b.func.attr == 'rstrip' and len(b.args) == 1 \
+                        and _r18_is_bs(b.args[0]) and ast.dump(b.func.value) == ast.dump(a) and ends_at_quote(a):
+                    return True
+        return False
+
+    class _NoEval(Exception):
+        pass
+
+    class _SkipRun(Exception):
+        """the window reaches beyond the character in front of the run: not determined by this run length"""
+
+    OTHER = object()           # the character in front of the run: any character but a backslash
+
+    def q_minus_c(x):
+        if isinstance(x, ast.BinOp) and isinstance(x.op, ast.Sub) and isinstance(x.left, ast.Name) and x.left.id in qpos \
+                and isinstance(x.right, ast.Constant) and type(x.right.value) is int and x.right.value >= 1:
+            return x.right.value
+        return None
+
+    def sym(j, n):
+        if j <= n:
+            return '\\'
+        if j == n + 1:
+            return OTHER
+        raise _SkipRun()
+
+    def window(x, n):
+        """the characters a read of the header text in front of the found DQUOTE sees, for a run of n backslashes; None: not such a read"""
+        if isinstance(x, ast.Subscript) and isinstance(x.value, ast.Name) and x.value.id == gh:
+            c = q_minus_c(x.slice)
+            if c is not None:
+                return [sym(c, n)]
+            if isinstance(x.slice, ast.Slice) and x.slice.step is None and x.slice.lower is not None and x.slice.upper is not None:
+                c = q_minus_c(x.slice.lower)
+                d = 0 if (isinstance(x.slice.upper, ast.Name) and x.slice.upper.id in qpos) else q_minus_c(x.slice.upper)
+                if c is not None and d is not None and c > d:
+                    return [sym(j, n) for j in range(c, d, -1)]
+        return None
+
+    def same(win, text):
+        if len(win) != len(text):
+            return False
+        r = True
+        for w, ch in zip(win, text):
+            if w is OTHER:
+                if ch != '\\':
+                    raise _NoEval()          # "any character but a backslash" compared with a character that is not a backslash
+                r = False
+            elif w != ch:
+                r = False
+        return r
+
+    def pev(e, n):
+        if is_run_count(e):
+            return n
+        w = window(e, n)
+        if w is not None:
+            return w
+        if isinstance(e, ast.Constant) and isinstance(e.value, (int, bool, str)):
+            return e.value
+        if isinstance(e, ast.Name) and e.id == sv:
+            return not outside
+        if isinstance(e, ast.UnaryOp) and isinstance(e.op, ast.Not):
+            v = pev(e.operand, n)
+            if isinstance(v, list):
+                raise _NoEval()
+            return not v
+        if isinstance(e, ast.BoolOp):
+            vs = [pev(x, n) for x in e.values]
+            if any(isinstance(v, (list, str)) for v in vs):
+                raise _NoEval()
+            return all(vs) if isinstance(e.op, ast.And) else any(vs)
+        if isinstance(e, ast.BinOp) and isinstance(e.op, (ast.Mod, ast.BitAnd, ast.FloorDiv, ast.Add, ast.Sub)):
+            a, b = pev(e.left, n), pev(e.right, n)
+            if not (type(a) in (int, bool) and type(b) in (int, bool)) or (isinstance(e.op, (ast.Mod, ast.FloorDiv)) and b == 0):
+                raise _NoEval()
+            return {ast.Mod: lambda: a % b, ast.BitAnd: lambda: a & b, ast.FloorDiv: lambda: a // b, ast.Add: lambda: a + b,
+                    ast.Sub: lambda: a - b}[type(e.op)]()
+        if isinstance(e, ast.Call) and isinstance(e.func, ast.Attribute) and e.func.attr == 'endswith' and not e.keywords and e.args \
+                and isinstance(e.args[0], ast.Constant) and isinstance(e.args[0].value, str) and e.args[0].value:
+            text = e.args[0].value
+            if (ends_at_quote(e.func.value) and len(e.args) == 1) or (
+                    isinstance(e.func.value, ast.Name) and e.func.value.id == gh and len(e.args) == 3 and isinstance(e.args[2], ast.Name)
+                    and e.args[2].id in qpos and not any(isinstance(y, ast.Name) and y.id == gh for y in ast.walk(e.args[1]))):
+                return same([sym(j, n) for j in range(len(text), 0, -1)], text)
+            raise _NoEval()
+        if isinstance(e, ast.Compare) and len(e.ops) == 1:
+            op, r = e.ops[0], e.comparators[0]
+            a = pev(e.left, n)
+            if isinstance(op, (ast.In, ast.NotIn)):
+                if isinstance(r, (ast.Tuple, ast.List, ast.Set)) and all(isinstance(x, ast.Constant) and isinstance(x.value, str) for x in r.elts):
+                    members = [x.value for x in r.elts]
+                elif isinstance(r, ast.Constant) and isinstance(r.value, str) and isinstance(a, list) and len(a) == 1:
+                    members = list(r.value)
+                else:
+                    raise _NoEval()
+                if not isinstance(a, list):
+                    raise _NoEval()
+                hit = any([same(a, m) for m in members])
+                return hit if isinstance(op, ast.In) else (not hit)
+            b = pev(r, n)
+            if isinstance(a, list) or isinstance(b, list):
+                if isinstance(b, list):
+                    a, b = b, a
+                if not (isinstance(b, str) and isinstance(op, (ast.Eq, ast.NotEq))):
+                    raise _NoEval()
+                eq = same(a, b)
+                return eq if isinstance(op, ast.Eq) else (not eq)
+            if isinstance(a, str) or isinstance(b, str):
+                raise _NoEval()
+            for k, fn in ((ast.Eq, lambda: a == b), (ast.NotEq, lambda: a != b), (ast.Lt, lambda: a < b), (ast.LtE, lambda: a <= b),
+                          (ast.Gt, lambda: a > b), (ast.GtE, lambda: a >= b)):
+                if isinstance(op, k):
+                    return fn()
+        raise _NoEval()
+
+    def has_run_count(e):
+        return any(is_run_count(x) for x in ast.walk(e))
+
+    def reads_text(x):
+        """the condition is not a function of the found positions and the state alone (len(header) is a position)"""
+        lens = {id(y) for c in ast.walk(x) if isinstance(c, ast.Call) and isinstance(c.func, ast.Name) and c.func.id == 'len' and len(c.args) == 1
+                and isinstance(c.args[0], ast.Name) and c.args[0].id == gh for y in ast.walk(c)}
+        return has_run_count(x) or any(isinstance(y, ast.Name) and id(y) not in lens and y.id != sv and y.id not in posnames for y in ast.walk(x))
+
+    # the passes that start inside the quoted string: those that close it, and those that looked at the text and kept it open
+    p_close, p_keep = [], []
+    for v0, cond in finished:
+        if v0 == outside:
+            continue
+        lits = [(expand(a), pol, a) for (t, tp) in cond if not isinstance(tp, str) for (a, pol) in atoms(t, tp)]
+        lits = [l for l in lits if reads_text(l[0])]
+        marks = [t for (t, tp) in cond if tp == 'close']
+        if marks:
+            p_close.append((marks[0], lits))
+        elif lits:
+            p_keep.append((None, lits))
+
+    def consistent(lits, n):
+        for x, pol, a in lits:
+            try:
+                v = pev(x, n)
+            except _NoEval:
+                raise unreadable(a)
+            if isinstance(v, (list, str)):
+                raise unreadable(a)
+            if bool(v) != pol:
+                return False
+        return True
+
+    what = '%s: a DQUOTE found by find() inside the quoted string closes it exactly when the run of backslashes in front of it is even ' \
+           '(a quoted-pair is a backslash and ONE character): the closing decision evaluated per run length' % g.name
+    evaluated, skipped, broken = [], [], None
+    for n in _R18_RUNS:
+        try:
+            took = [pc for pc in p_close if consistent(pc[1], n)]
+            kept = [pk for pk in p_keep if consistent(pk[1], n)]
+        except _SkipRun:
+            skipped.append(n)
+            continue
+        evaluated.append(n)
+        if n % 2 and took:
+            broken = (n, took[0], 'the closing path is taken although the DQUOTE is escaped')
+        elif n % 2 == 0 and (kept or not took):
+            pth = kept[0] if kept else p_close[0]
+            broken = (n, pth, 'the quoted string is not closed although the DQUOTE is not escaped')
+        if broken:
+            break
+    n_ob += 1
+    if broken:
+        n, (mark, lits), why = broken
+        cons = lits[0][2] if lits else mark
+        run.fail(what, g, cons, where=g.loc(cons), witness=['with a run of %d backslash(es) in front of the DQUOTE: %s' % (n, why)] + [
+            'condition on that path: %s is %s' % (short(a, 60), pol) for (_x, pol, a) in lits] + ([] if lits else [
+                'the closing path carries no condition on the characters in front of the DQUOTE']),
+            runtime_witness=_R18_WITNESS_HOP if n else "'a/b;p=\"x\", c/d' swallows c/d")
+    elif skipped or len(evaluated) < 4:
+        raise unreadable('run lengths %s not determined by the windows read in front of the DQUOTE' % skipped)
+    else:
+        cons = next((l[2] for pc in p_close for l in pc[1]), p_close[0][0])
+        run.ok(what + ' (run lengths %s, %d closing / %d keeping paths)' % (tuple(evaluated), len(p_close), len(p_keep)), g.loc(cons), cons)
+    return n_ob, {'splitter': g.qual, 'shape': 'find-hops', 'state_variable': sv, 'quote_positions': sorted(qpos),
+                  'closing_paths': len(p_close), 'keeping_paths': len(p_keep), 'run_lengths': evaluated}
+
+
 def r18_cut_outside_quotes(run):
     """(a) no plain split/partition of header text at `,` / `;` unless a dominating test shows the text has no DQUOTE;
     (b) the splitter's character loop cuts exactly where the RFC 9110 quoted-string reader says a comma is outside quotes.
@@ -7273,6 +7779,8 @@ def r18_cut_outside_quotes(run):
     run.use(g)
     gh = single(_param_names(g), 'parameter', g.qual)
     loops = [n for n in walk_self(g.node) if isinstance(n, (ast.For, ast.While))]
+    nested_loops = {id(x) for l in loops for c in ast.iter_child_nodes(l) for x in ast.walk(c)}
+    loops = [l for l in loops if id(l) not in nested_loops]
     if not loops:
         # no character loop: every return must be a cut judged by (a) (or a regular expression: unknown)
         for r in _returns(g):
@@ -7280,6 +7788,9 @@ def r18_cut_outside_quotes(run):
                 raise UnknownIdiom('%s returns %s' % (g.qual, short(r.value, 60)))
         return n_ob
     loop = single(loops, 'character loop', g.qual)
+    if isinstance(loop, ast.While):
+        n_hop, run.extra['c11_r18'] = _r18_find_hops(run, g, gh, loop)
+        return n_ob + n_hop
     if not isinstance(loop, ast.For) or loop.orelse:
         raise UnknownIdiom('%s: %s' % (g.qual, short(loop, 60)))
     it, tgt = loop.iter, loop.target
